@@ -387,6 +387,8 @@ def website_set(id3, key, value):
 
 
 def website_delete(id3, key):
+    if not id3.getall("WOAR"):
+        raise KeyError(key)
     id3.delall("WOAR")
 
 
